@@ -9,4 +9,7 @@ def loopTasksChecked : Bool := true
 /-- a resumed run's ctx keeps the checkpoint, so that nested graphs are re-entered from a stale checkpoint
     (C05's fact; the nested clause of before_honoured rests on its being false) -/
 def createTasksForwardsStaleCP : Bool := false
+/-- the error of `r.checkPointer.set(…)` reaches the return of the interrupt handlers (a failed
+    checkpoint write is the run's error; no interrupt is returned then) -/
+def checkpointWriteErrorReturned : Bool := true
 end EinoV.Expected.C06
